@@ -174,3 +174,46 @@ Print Assumptions C01_parse_strict_rejects_big.
 Theorem C01_big_example : big_example_ok = true.
 Proof. exact big_example. Qed.
 Print Assumptions C01_big_example.
+
+(* ---- with JSON_TOKENER_VALIDATE_UTF8 (TokUtf8.v, TokValidUtf8.v) ----
+   Validation is neutral on valid UTF-8: for ANY grammar, a NUL-free text that is valid UTF-8
+   (validator scan u8scan ends in state 0) and on which the plain parser succeeds at the end of the text
+   gives the same result with the flag set.  Hence every valid document is parsed to its value with
+   the flag as well, in both modes and with integers of any size. *)
+From JC Require Import TokStream2 TokUtf8 TokValidUtf8.
+
+Theorem C01_validate_utf8_neutral : forall sb t text t' r,
+  validate_utf8 t = false -> nonulb text = true -> u8scan 0 text = Some 0 ->
+  parse_ex_cstr sb t text = PR t' r -> char_offset t' = zlen text ->
+  parse_ex_cstr sb (set_vf t true) text = PR (set_vf t' true) r.
+Proof. exact validate_utf8_neutral. Qed.
+Print Assumptions C01_validate_utf8_neutral.
+
+Theorem C01_parse_valid_utf8 : forall sb D strictf s lead trail t,
+  wf_stx s -> all_ws lead = true -> all_ws trail = true ->
+  Z.of_nat (nest s) < D -> ints_in_range s = true -> names_nul_free s = true ->
+  u8scan 0 (render_doc lead s trail) = Some 0 ->
+  tok_new D strictf false true = Some t ->
+  exists t', parse_ex_cstr sb t (render_doc lead s trail) = PR t' (Some (value sb s)) /\
+             err t' = TE_success /\ char_offset t' = zlen (render_doc lead s trail).
+Proof. exact parse_valid_utf8. Qed.
+Print Assumptions C01_parse_valid_utf8.
+
+Theorem C01_parse_valid_sat_utf8 : forall sb D al s lead trail t,
+  wf_stx s -> all_ws lead = true -> all_ws trail = true ->
+  Z.of_nat (nest s) < D -> names_nul_free s = true ->
+  u8scan 0 (render_doc lead s trail) = Some 0 ->
+  tok_new D false al true = Some t ->
+  exists t', parse_ex_cstr sb t (render_doc lead s trail) = PR t' (Some (value_sat sb s)) /\
+             err t' = TE_success /\ char_offset t' = zlen (render_doc lead s trail).
+Proof. exact parse_valid_sat_utf8. Qed.
+Print Assumptions C01_parse_valid_sat_utf8.
+
+Theorem C01_utf8_example : utf8_example_ok = true.
+Proof. exact utf8_example. Qed.
+(* the statement is about whole valid documents: right after a value followed by a multi-byte
+   character the two settings differ (the lead byte is validated before the number state ends the value) *)
+Theorem C01_utf8_after_value_differs :
+  pres false [49; 195; 169] = Some (TE_success, 1, Some (JInt 1)) /\
+  pres true [49; 195; 169] = Some (TE_utf8, 1, None).
+Proof. exact utf8_after_value_differs. Qed.
